@@ -8,6 +8,8 @@ Sensitivity (quick tier, scratch copies):
   pre-fix snapshot 59274db: add,add,del -> KeyError (F1)                       -> caught (present_name_not_deletable)
   pre-fix snapshot: continuation line with an empty side (F17)                 -> caught (continuation_edge_whitespace)
   seeded: __delitem__ clearing the cache under the caller's spelling           -> caught (stale joined value after delete)
+  seeded (round 6): __setitem__ returning early when the cached combined value equals the new value
+     (add a; add b; get; set "a,b" keeps two lines) -> missed until the read-modify-write op "setjoined" existed (get_list)
 Reads populate the combined-value cache, so full observations are themselves generated ops ("get") —
 otherwise add,add,del without an intervening read would never be exercised.
 """
@@ -53,6 +55,8 @@ op_s = st.one_of(
     st.tuples(st.just("set"), tgt, name_s, _value()),
     st.tuples(st.just("del"), tgt, name_s),
     st.tuples(st.just("get"), tgt, name_s),
+    # read-modify-write: set the name to exactly the combined value just read from it (collapses it to one line)
+    st.tuples(st.just("setjoined"), tgt, name_s, st.sampled_from(["", "", ",z", " "])),
     st.tuples(st.just("copy"), tgt, st.sampled_from(["copy", "copy.copy", "ctor", "pickle"])),
     st.tuples(st.just("line"), tgt, name_s, _value(), st.sampled_from(["", "\r\n", "\n"]),
               st.sampled_from(["", " ", "\t ", "  "])),
@@ -168,6 +172,18 @@ def run_case(ctx, case):
             if multi:
                 nontrivial = True
                 labels.add("set_after_multi_add")
+        elif kind == "setjoined":
+            _, _, n, suffix = op
+            if norm(n) in m.d:
+                got = h[n]  # the read populates whatever the implementation caches
+                v = (got + suffix).strip(" \t")
+                if got != ",".join(m.d[norm(n)]):
+                    ctx.fail("C06.joined_value", {"step": step, "name": n, "real": got, "model": ",".join(m.d[norm(n)])})
+                if len(m.d[norm(n)]) >= 2:
+                    nontrivial = True
+                    labels.add("set_to_own_joined_value" if not suffix.strip() else "set_to_joined_value_plus_suffix")
+                h[n] = v
+                m.set(n, v)
         elif kind == "del":
             _, _, n = op
             if norm(n) in m.d:
